@@ -238,6 +238,8 @@ def sweep(a):
         if b["check_exit"] != 0:
             raise SystemExit("the check does not pass on the unchanged tree: %s" % json.dumps(b)[:1500])
         base_wall = b["check_wall_s"]
+        # the machine is shared: a mutant only counts as hanging when it needs more than 3x the time of the unchanged tree
+        a.timeout = int(max(a.timeout, 3 * base_wall))
         baseline_in_time = base_wall < a.timeout
         if meta is None or meta.get("repo_head") != head:
             emit({"meta": True, "pid": pid, "repo_head": head, "files": files, "sites": nsites, "mutants": len(order), "seed": a.seed,
